@@ -64,6 +64,27 @@ def main():
                     os.write(2, ("child inherited held locks: %r\n" % held).encode())
                     rc = 3
                 logger.info("child says hello")
+                # the child must be able to log from ANY of its threads, not only from the one that forked: fresh
+                # threads of the child tend to receive the (recycled) identities of parent threads that did not
+                # survive the fork, so per-thread state of the parent that is not thread-local would be attributed
+                # to them (every handler was added with catch=False: a failure reaches the thread)
+                failures = []
+
+                def child_thread(k):
+                    try:
+                        logger.info("child thread %d" % k)
+                    except BaseException as e:  # noqa
+                        failures.append("%s: %s" % (type(e).__name__, str(e)[:120]))
+
+                kids = [threading.Thread(target=child_thread, args=(k,), daemon=True) for k in range(cfg["threads"] + 1)]
+                for t in kids:
+                    t.start()
+                for t in kids:
+                    t.join(10)
+                if failures or any(t.is_alive() for t in kids):
+                    os.write(2, ("child: a fresh thread could not log through the inherited handlers: %r\n"
+                                 % (failures[:2] or "still blocked",)).encode())
+                    rc = 5
                 hid = logger.add(lambda m: None, format="{message}")
                 logger.info("child again")
                 logger.remove(hid)
@@ -80,6 +101,9 @@ def main():
             if wpid:
                 if os.WIFSIGNALED(status):
                     bad.append("child %d killed by signal %d (watchdog = deadlock in the child)" % (forks, os.WTERMSIG(status)))
+                elif os.WEXITSTATUS(status) == 5:
+                    bad.append("child %d: a fresh thread of the child could not log through an inherited handler "
+                               "(exit status 5)" % forks)
                 elif os.WEXITSTATUS(status) != 0:
                     bad.append("child %d exit status %d" % (forks, os.WEXITSTATUS(status)))
                 break
